@@ -3,6 +3,7 @@
 Require Import ExtrOcamlBasic.
 Require Import AV.Gen.XFloatParams.
 Require Import AV.XFloat.Model.
+Require Import AV.XFloat.TextShape AV.XFloat.TextModel.
 
 Extraction "XFloat/extracted/xfloat.ml"
   sf df xsf xdf
@@ -10,4 +11,5 @@ Extraction "XFloat/extracted/xfloat.ml"
   natDissemble natAssemble xDissemble xAssemble
   xsfFrNative xsfToNative xdfFrNative xdfToNative
   natClassify xClassify class_code
-  fiSFloDissemble fiSFloAssemble fiDFloDissemble fiDFloAssemble.
+  fiSFloDissemble fiSFloAssemble fiDFloDissemble fiDFloAssemble
+  dfloatSprint sprint_default sprint_floatrep sx_mark.
